@@ -41,6 +41,9 @@ def case(draw):
     return dict(
         part="diff", desc=dict(chains=chains),
         nwat=draw(st.integers(0, 2)),
+        # an RNA strand that already carries its hydrogens (NMR / pre-protonated files): names with primes
+        # and double primes (H5'', H2'', HO2') need quoting in mmCIF
+        rna=draw(st.sampled_from([None, None, None, "AU", "GCA", "UG"])),
         big=draw(st.sampled_from([None, None, [-150.0, 1200.0, -250.0], [2000.0, -300.0, 5000.0]])),
         models=draw(st.sampled_from([1, 1, 2, 3])),
         model_nums=draw(st.sampled_from(["from1", "from1", "from9", "descending", "from0", "gaps"])),
@@ -62,7 +65,10 @@ def atoms_of(case):
     e2e.normalise(desc, case["opts"])
     s = build.materialise(desc)
     off = np.array(case["big"]) if case["big"] else np.zeros(3)
-    recs = [r for r in s.records if r["group"][0] == "chain"]
+    if case.get("rna"):
+        s.strands = [build.strand_records(s, dict(id="R", dna=False, seq=case["rna"], p5=False, newnames=True, style="bare", start=601,
+                                                 hyd="all", shift=[0.0, 40.0, 60.0]), 0)]  # fmt: skip
+    recs = [r for r in s.records if r["group"][0] in ("chain", "na")]
     alt_idx = {a % len(recs) for a in case["alts"]} if recs else set()
     # never split backbone atoms (keeps residue identity trivial to compare)
     atoms = []
